@@ -188,6 +188,12 @@ func c11Procedures(c *fw.Case) (o fw.Outcome) {
 	msinLen := total - 3 - len(cfg.MNC)
 	lead := []string{"0", "00", "9", "1", ""}[(k+k/len(mncs))%5] // by index: MNC 00 meets an MSIN with leading zeros in every run
 	cfg.IMSI = cfg.MCC + cfg.MNC + lead + digits(r, msinLen-len(lead)-4) + fmt.Sprintf("%04d", 1+r.Intn(200))
+	if k%4 == 1 && msinLen > len(cfg.MCC+cfg.MNC) { // the PLMN digits occur again inside the MSIN
+		m := []byte(cfg.IMSI[len(cfg.MCC+cfg.MNC):])
+		copy(m[r.Intn(len(m)-len(cfg.MCC+cfg.MNC)+1):], cfg.MCC+cfg.MNC)
+		cfg.IMSI = cfg.MCC + cfg.MNC + string(m)
+		o.Tag("plmn-digits-inside-msin")
+	}
 	cfg.Reg, cfg.Pdu, cfg.Dereg = 1, 0, 1
 	sp := ProcSpec{Cfg: cfg, ChoiceSeed: r.Int63(), NUE: 1, Deregister: true, FaultAt: -1}
 	o.Input = fmt.Sprintf("procedures NG Setup + registration + deregistration for subscriber %s (MCC %s MNC %s)", cfg.IMSI, cfg.MCC, cfg.MNC)
